@@ -494,7 +494,7 @@ func (c *CqlServerConnection) outgoingLoop() {
 	c.waitGroup.Add(1)
 	go func() {
 		abort := false
-		for !c.IsClosed() {
+		for !abort && !c.IsClosed() {
 			if outgoing, ok := <-c.outgoing; !ok {
 				if !c.IsClosed() {
 					log.Error().Msgf("%v: outgoing frame channel was closed unexpectedly, closing connection", c)
